@@ -30,14 +30,14 @@ def run(ctx):
                  ("ImageCopyMC", "C14_mc_t2.cfg", "14 shapes x 6 pairings x mount on/off x corner targets x 3 tag states, reduced", {"timeout": 3000})]
     mc, states, trans = cc.run_mc(ctx, runs)
 
-    scripts = cc.tlc_scripts(e, "C14_gen.cfg", 1200 if th else 160, "tlc")
+    scripts = cc.tlc_scripts(e, "C14_gen.cfg", 1200 if th else 250, "tlc")
     default_only = lambda o: not o
     mx = e.matrix(e.shapes, cc.PAIRS, 64 if th else 10, ["random", "fifo", "ungated"], "min", opt_filter=default_only, full=th)
     mx2 = e.matrix(e.shapes, cc.PAIRS, 4, ["random", "ungated"], "min-opts", opt_filter=lambda o: bool(o))
     keyf = [lambda s: (s["shape"], s["pair"], s["mount"]), lambda s: (s["shape"], s["tag0"], len(s["init"])),
             lambda s: (s["shape"], cc.optsig(s)), lambda s: (s["pair"], s["mode"], s["conc"])]
-    mx = cc.cover_sample(rng, mx, 16000 if th else 1000, keyf)
-    mx2 = cc.cover_sample(rng, mx2, 3000 if th else 250, keyf)
+    mx = cc.cover_sample(rng, mx, 16000 if th else 1800, keyf)
+    mx2 = cc.cover_sample(rng, mx2, 3000 if th else 400, keyf)
     # the corner cases the statement names: retag, identical image, everything mountable
     extra = []
     for sh in e.shapes:
